@@ -17,13 +17,14 @@
 // Machine-checked contracts (checked by /verif/govc; comment-only file).
 package typeutil
 
-// The big-endian codec is described by an abstract decoder u64dec over byte strings
-// (encoding/binary itself is outside the verified code: these two contracts are assumed).
+// The big-endian codec is described by an abstract decoder u64dec over byte strings (encoding/binary itself is outside
+// the verified code). BytesToUint64 is verified against the assumed contract of binary.BigEndian.Uint64
+// (/verif/specs/binary.spec): every 8-byte string is decoded by the library decoder, whole; Uint64ToBytes is assumed.
 //@ func BytesToUint64
-//@   assumed
-//@   ensures (len(b) == 8) <==> (r1 == nil)
-//@   ensures r1 == nil ==> r0 == uf("u64dec", str(b))
-//@   ensures r1 != nil ==> r0 == 0
+//@   props C04 C02
+//@   ensures [eight-bytes-or-error] (len(b) == 8) <==> (r1 == nil)
+//@   ensures [decodes-the-whole-string] r1 == nil ==> r0 == uf("u64dec", str(b))
+//@   ensures [zero-on-error] r1 != nil ==> r0 == 0
 //@   modifies nothing
 //@ func Uint64ToBytes
 //@   assumed
